@@ -195,3 +195,83 @@ def r_dupfmt(repo, tier):
             s = lst[-1]
             out.report(s.func.file, "<module>", "dup %r" % fmt, s.line, "format shared by different setup functions %s" % sorted(names))
     return out
+
+
+def r_decode(repo, tier):
+    """structural obligations on ispec.decode itself (the interpreter half of C03 / C05 that is visible in code shape)"""
+    from ..cfg import CFG
+
+    out = RuleOut(
+        "R-DECODE",
+        "ispec.decode: (1) the byte length of the fixed part is derived from the fix/mask width (self.fix.size // 8 or "
+        "self.mask.size // 8); (2) a raising length test of the input against that same bound dominates the slice that takes "
+        "the fixed part; (3) the fixed-bit test compares (bits & mask) with fix and raises DecodeError; (4) for variable-length "
+        "specs the tail handed to the directives is the whole rest of the input: an open slice starting at that same bound; "
+        "(5) the instruction's bytes are set from the very slice that was matched",
+    )
+    f = repo.func("amoco/arch/core.py", "ispec.decode")
+    fn = f.node
+    istr = f.params()[1] if len(f.params()) > 1 else None
+    if istr is None:
+        raise AnalysisError("R-DECODE: ispec.decode has no input parameter")
+    # (1) bound variable
+    bound = None
+    for n in ast.walk(fn):
+        if isinstance(n, ast.Assign) and isinstance(n.targets[0], ast.Name) and norm(n.value) in ("self.fix.size // 8", "self.mask.size // 8"):
+            bound = n.targets[0].id
+    out.inst(f.key + "::bound", {"fixed_part_bytes": bound})
+    if bound is None:
+        out.report(f.file, f.dqual, "fixed part length", fn.lineno, "the byte length of the fixed part is not computed from self.fix.size // 8 (variable-length specs have self.size == 0, so LEN cannot be used)")
+        return out
+    cfg = CFG(fn, may_raise=lambda x: False)
+    # (2) guard
+    guards = []
+    for nd in cfg.nodes:
+        if nd.kind == "test" and isinstance(nd.ast, ast.If) and nd.ast.body and isinstance(nd.ast.body[-1], ast.Raise):
+            t = nd.ast.test
+            if isinstance(t, ast.Compare) and len(t.ops) == 1 and isinstance(t.ops[0], ast.Lt) and norm(t.left) == "len(%s)" % istr and norm(t.comparators[0]) == bound:
+                guards.append(nd)
+    slices = []
+    for nd in cfg.nodes:
+        if nd.kind == "stmt" and isinstance(nd.ast, ast.Assign) and isinstance(nd.ast.value, ast.Subscript) and norm(nd.ast.value.value) == istr and isinstance(nd.ast.value.slice, ast.Slice):
+            sl = nd.ast.value.slice
+            if sl.upper is not None and norm(sl.upper) == bound and (sl.lower is None or norm(sl.lower) == "0"):
+                slices.append(nd)
+    out.inst(f.key + "::guard", {"length_tests": [norm(g.ast.test) for g in guards], "fixed_part_slices": [norm(s.ast) for s in slices]})
+    if not slices:
+        out.report(f.file, f.dqual, "fixed part slice", fn.lineno, "no slice %s[0:%s] takes the fixed part of the input" % (istr, bound))
+    for s in slices:
+        reach = cfg.reachable_from(cfg.entry, avoid={g.id for g in guards})
+        if not guards or s.id in reach:
+            out.report(f.file, f.dqual, "length test of %s against %s" % (istr, bound), s.line, "the slice %s is not dominated by `if len(%s) < %s: raise DecodeError`: an input shorter than the fixed part is zero-extended and can match" % (norm(s.ast.value), istr, bound))
+    # (3) fixed-bit test
+    ok3 = False
+    for nd in cfg.nodes:
+        if nd.kind == "test" and isinstance(nd.ast, ast.If) and nd.ast.body and isinstance(nd.ast.body[-1], ast.Raise):
+            t = norm(nd.ast.test)
+            if "self.mask" in t and "self.fix" in t and "!=" in t and "&" in t:
+                ok3 = True
+    out.inst(f.key + "::fixbits", {"fixed_bit_test": ok3})
+    if not ok3:
+        out.report(f.file, f.dqual, "fixed-bit test", fn.lineno, "no test `bits & self.mask != self.fix` that raises DecodeError")
+    # (4) tail
+    tails = []
+    for n in ast.walk(fn):
+        if isinstance(n, ast.If) and norm(n.test) == "self.size == 0":
+            for x in ast.walk(ast.Module(body=n.body, type_ignores=[])):
+                if isinstance(x, ast.Subscript) and norm(x.value) == istr and isinstance(x.slice, ast.Slice):
+                    tails.append(x)
+    out.inst(f.key + "::tail", {"tail_slices": [norm(t) for t in tails]})
+    if not tails:
+        out.report(f.file, f.dqual, "variable tail", fn.lineno, "variable-length specs (self.size == 0) do not receive the rest of the input")
+    for t in tails:
+        if t.slice.upper is not None or t.slice.lower is None or norm(t.slice.lower) != bound:
+            out.report(f.file, f.dqual, "variable tail %s" % norm(t), t.lineno, "the variable tail must be all remaining input `%s[%s:]` (documented: '(*) ... all remaining bits from the instruction buffer'); %s truncates or shifts it" % (istr, bound, norm(t)))
+    # (5) bytes from the matched slice
+    if slices:
+        bs = slices[0].ast.targets[0].id if isinstance(slices[0].ast.targets[0], ast.Name) else None
+        uses = [norm(n) for n in ast.walk(fn) if (isinstance(n, ast.Call) and norm(n.func) == "iclass" and n.args and norm(n.args[0]) == bs) or (isinstance(n, ast.AugAssign) and norm(n.target).endswith(".bytes") and norm(n.value) == bs)]
+        out.inst(f.key + "::bytes", {"matched_slice": bs, "recorded_by": uses})
+        if len(uses) < 2:
+            out.report(f.file, f.dqual, "instruction bytes", fn.lineno, "the instruction's bytes are not set from the matched slice %s on both the new-instruction and the pending-prefix path" % bs)
+    return out
